@@ -1,7 +1,10 @@
 #!/bin/sh
 # run every registered check (tier from $1, default quick); prints one line per property
+# usage: run_all.sh [quick|thorough] [property ...]
 tier=${1:-quick}; mkdir -p $(dirname $0)/out
-for p in C01 C02 C03 C04 C05 C06 C07 C08 C09 C10 C11 C12 C13 C14 C15 C16 C17 C18 C19 C20; do
+[ $# -gt 0 ] && shift
+props=${*:-C01 C02 C03 C04 C05 C06 C07 C08 C09 C10 C11 C12 C13 C14 C15 C16 C17 C18 C19 C20}
+for p in $props; do
   start=$(date +%s)
   python3 $(dirname $0)/check.py $p --tier $tier > $(dirname $0)/out/run_$p.log 2>&1
   rc=$?
